@@ -319,7 +319,10 @@ fn ulp(x: f64) -> f64 {
 fn check_output<F: AdFrame>(m: &Model, id: u32, p: u128, got: F, obs: &mut Observer) -> Result<(), Violation> {
     let (klo, khi) = m.floor_lo_hi(p);
     let frac_exact = (p & ((1u128 << Q) - 1)) as f64 / 2f64.powi(Q as i32);
-    if klo == khi && m.dyadic {
+    // exact comparison where the property is exact: the floor interpolator yields a source frame, and any
+    // interpolator at an integer position / ratio 1 yields the frame itself.  A linear blend at a fractional
+    // position is stated "up to float rounding": it goes through the tolerance path below (slack 0 here).
+    if klo == khi && m.dyadic && (!m.linear || frac_exact == 0.0) {
         let want: F = expected(m, id, klo, frac_exact);
         check_eq!(
             obs,
